@@ -1,10 +1,10 @@
 """C01 — encode/decode round trip reproduces the geometry exactly (modulo quantization)."""
 from vlib.engine import Case
-from . import e2e, e2etags, geomgen as G, topo2, seqenc_cases
+from . import e2e, e2etags, ebcases, geomgen as G, kdcases, topo2, seqenc_cases
 
 ID = "C01"
 LEVEL = "proof"
-LEAN_MODULES = ["DracoProps.C01"]
+LEAN_MODULES = ["DracoProps.C01", "DracoProps.C01Kd", "DracoProps.C01Eb"]
 RULE = ("(a) random: generated point clouds (<=300 points quick / <=2000 thorough) and meshes (all topology families of "
         "props/geomgen.py and props/topo2.py: grids, closed surfaces, tori with irregular diagonals, genus-2 sums, "
         "grid patches, vertex fans, k faces on an edge, bow-ties, soups, components, empty / degenerate / duplicate / "
@@ -157,7 +157,46 @@ def generate(rng, tier):
             cases.append(case(g, toks, info, ("gen:special-topology",)))
     # encoder model of the sequential methods vs. the C++ encoders, byte for byte (DracoModel/SeqEncoder.lean)
     cases += seqenc_cases.cases(rng, 600 if tier == "thorough" else 150, 2000 if tier == "thorough" else 300)
+    # the Edgebreaker decoder model driven through every branch on purpose (standard / valence traversal, split
+    # events, holes, seams, all mesh prediction schemes); reached branches show as eb:* in input_distribution
+    cases += ebcases.cases(rng, tier)
+    # kd-tree: every level 0..6, dimensions 1..20, all integer types at their limits, 1..30 bit quantization, and the
+    # tree coder alone (model encoder bytes == DynamicIntegerPointsKdTreeEncoder bytes)
+    cases += kdcases.kd_cases(rng, tier) + kdcases.kd_core_cases(rng, tier)
+    # sequential meshes whose trailing points are used by no face: the index width follows num_points
+    cases += isolated_tail_cases(rng, tier)
     return cases
+
+
+def isolated_tail_cases(rng, tier):
+    """sequential mesh, faces use only the first points, the point count crosses 256 (and 65536 in the thorough tier)"""
+    out = []
+    sizes = [(rng.randint(20, 200), rng.randint(257, 400)) for _ in range(6)]
+    sizes += [(255, 256), (256, 257), (120, 300)]
+    if tier == "thorough":
+        sizes += [(rng.randint(20, 60000), 65537 + rng.randint(0, 50)), (65536, 65537)]
+    for used, total in sizes:
+        base = G.rand_mesh(rng, min(used, 60), specs=[(G.POSITION, G.DT["f32"], 3, False, 0)])
+        if base.num_points == 0 or not base.faces:
+            continue
+        # spread the faces over point ids < used, then append unused points
+        ids = sorted(rng.sample(range(used), min(used, base.num_points))) if used >= base.num_points else list(range(base.num_points))
+        remap = {i: ids[i] for i in range(len(ids))}
+        faces = [tuple(remap.get(v, v) for v in f) for f in base.faces]
+        n = max(total, max(max(f) for f in faces) + 1)
+        a = base.atts[0]
+        import struct
+        vals = b"".join(struct.pack("<3f", *(G.f32(rng.uniform(-1000, 1000)) for _ in range(3))) for _ in range(n))
+        att = G.Attr(a.att_type, a.dtype, a.ncomp, a.normalized, a.uid, n, None, vals)
+        g = G.Geom(True, n, faces, [att])
+        g.family = "isolated_tail"
+        for cc in (0, 1):
+            toks = ["expert=1", "method=0", f"g:compress_connectivity={cc}", f"speed={rng.randint(0, 10)},{rng.randint(0, 10)}"]
+            info = {"expert": True, "req": {}, "track": False, "skip": None}
+            c = e2e.make_case(g, toks, info, {"rt", "valid", "consumed", "corr"}, tags=("mesh", "fam:isolated_tail"))
+            c.mtag = e2e.model_support_tag
+            out.append(c)
+    return out
 
 
 def replay_cases(lines):
